@@ -31,6 +31,16 @@ Theorem GenScript_every_command_reachable : forall e cvs bs name, In e script_ta
 Proof. exact script_table_every_command_reachable. Qed.
 Print Assumptions GenScript_every_command_reachable.
 
+(* every command of the regenerated table has a definite dispatch result for EVERY number of arguments: too few below min, run
+   between min and max, too many above *)
+Theorem GenScript_every_command_every_argument_count : forall e cvs bs name n, In e script_table -> is_pseudo e = false ->
+  exists k sub, entry_class e = Some (k, sub) /\
+    ((k = OColvar -> In name cvs) -> (k = OBias -> In name bs) ->
+     dispatch script_table cvs bs (witness_n k sub name n) =
+       if (Z.of_nat n <? e_min e) then ErrTooFewArgs e else if (e_max e <? Z.of_nat n) then ErrTooManyArgs e else Run k e true).
+Proof. exact script_table_every_argument_count. Qed.
+Print Assumptions GenScript_every_command_every_argument_count.
+
 (* ... and under no other: for ANY table, two command lines that run the same command have the same object
    class and the same command word (whatever objects are defined when each is given) *)
 Theorem C20_one_name_per_command : forall tbl cvs1 bs1 cvs2 bs2 w1 w2 k1 k2 e ex1 ex2,
@@ -207,6 +217,24 @@ Theorem C20_getgradients_after_step : forall (T : Type) (st : @sem T) ob e words
 Proof. exact (@getgradients_after_step). Qed.
 Print Assumptions C20_getgradients_after_step.
 
+(* `cv colvar x get <feature>` / `cv bias b get <feature>`: the state of the feature observed at the last step, and nothing changes *)
+Theorem C20_feature_get_reads_state : forall (T : Type) (st : @sem T) e words,
+  e_name e = "colvar_get" \/ e_name e = "bias_get" -> fst (body_sem st e words) = st /\
+  snd (body_sem st e words) =
+    (if String.eqb (e_name e) "colvar_get"
+     then feature_query st ("c:" ++ nth 2 words "") (nth 4 words "")
+            (match alookup (nth 2 words "") (sm_cv st) with Some cs => Some (cs_collect cs) | None => None end)
+     else feature_query st ("b:" ++ nth 2 words "") (nth 4 words "") None).
+Proof. exact (@feature_get_reads_state). Qed.
+Print Assumptions C20_feature_get_reads_state.
+
+(* an ERROR answer of a body whose semantics is modelled (list, get, cvcflags, the grid-only bias queries, share) leaves the whole
+   semantic state unchanged (dispatcher errors: C20_rejected_call_changes_nothing) *)
+Theorem C20_error_answer_changes_nothing : forall (T : Type) (st : @sem T) e words,
+  error_is_clean (e_name e) = true -> snd (body_sem st e words) = QErr -> fst (body_sem st e words) = st.
+Proof. exact (@error_answer_changes_nothing). Qed.
+Print Assumptions C20_error_answer_changes_nothing.
+
 (* ---- deferred effect of `cvcflags` (colvar::set_cvc_flags / update_cvc_flags) ---- *)
 (* a cvcflags call only stores its flags (refused unless there is one per component): no number, no other variable changes *)
 Theorem C20_cvcflags_only_stores : forall (T : Type) (st : @sem T) e words x cs cur,
@@ -293,7 +321,7 @@ Qed.
 Definition ex_sem : @sem Z :=
   mk_sem ex_st [("x", mk_cvsem None false (Some false) None None)] [("h", None)] None.
 Definition ex_ob : @obs Z :=
-  mk_obs true (mk_moddata 7 42%Z [0%Z] [1%Z] [0%Z] [(1, 2, 3)%Z] [(4, 5, 6)%Z] [(0, 0, 0)%Z])
+  mk_obs true (mk_moddata 7 42%Z [0%Z] [1%Z] [0%Z] [(1, 2, 3)%Z] [(4, 5, 6)%Z] [(0, 0, 0)%Z] [("c:x", [("active", (true, true)); ("total force", (true, false)); ("periodic", (false, false))])])
          [("x", mk_cvdata 11%Z 12%Z 13%Z true [0%Z] [(1, 0, 0)%Z] [true; true] [4; 7]%Z)] [("h", 5%Z)].
 (* a step, malformed calls and queries, then the queries; getgradients: error, still error after set, answer after a step *)
 Example C20_example_semantics :
@@ -328,7 +356,11 @@ Example C20_example_cvcflags :
   (let st := run_sevents script_table ex_parse ex_read ex_sem
                [SStep ex_ob; SCmd ["cv"; "colvar"; "x"; "cvcflags"; "1 0"]; SCmd ["cv"; "colvar"; "x"; "cvcflags"; "1 1"]; SCmd ["cv"; "colvar"; "x"; "cvcflags"; "1"]; SStep ex_ob] in
    match alookup "x" (sm_cv st) with Some c => cs_cvcs c = Some [true; true] /\ cs_pending c = None | None => False end) /\
-  combine Z.add 0%Z [4; 7]%Z [false; true] = 7%Z.
+  combine Z.add 0%Z [4; 7]%Z [false; true] = 7%Z /\
+  snd (exec_sem script_table ex_parse ex_read (sem_step ex_sem ex_ob) ["cv"; "colvar"; "x"; "get"; "Total Force"]) = QInt 0 /\
+  snd (exec_sem script_table ex_parse ex_read (sem_step ex_sem ex_ob) ["cv"; "colvar"; "x"; "get"; "periodic"]) = QErr /\
+  snd (exec_sem script_table ex_parse ex_read (sem_step ex_sem ex_ob) ["cv"; "colvar"; "x"; "get"; "nosuch"]) = QErr /\
+  snd (exec_sem script_table ex_parse ex_read (sem_step ex_sem ex_ob) ["cv"; "colvar"; "x"; "get"; "collect_gradient"]) = QInt 0.
 Proof. vm_compute. repeat split. Qed.
 
 (* two unnamed harmonic blocks, the first is deleted, a third unnamed block: harmonic3, not a second harmonic2 *)
